@@ -139,7 +139,7 @@ def mkmod(name: str, src: str) -> types.ModuleType:
     m = types.ModuleType(name)
     m.__file__ = f"<tlg:{name}>"
     sys.modules[name] = m
-    exec(compile(src, m.__file__, "exec"), m.__dict__)
+    exec(compile(src, m.__file__, "exec", dont_inherit=True), m.__dict__)
     return m
 
 
